@@ -154,6 +154,23 @@ func (c *Conn) Write(p []byte) (int, error) {
 	if c.nwrites < len(c.WriteDelays) && c.WriteDelays[c.nwrites] > 0 {
 		d := c.WriteDelays[c.nwrites]
 		c.nwrites++
+		if !c.wdl.IsZero() {
+			// a write deadline that expires while the transport is still stalled cuts the write off
+			// half way: part of the data is out, the rest is not, and the caller gets a timeout
+			if rem := c.wdl.Sub(vs.TimeNow()); rem < d {
+				if rem > 0 {
+					vs.TimeSleep(rem)
+				}
+				if c.Closed {
+					return 0, ErrClosed
+				}
+				k := len(p) / 2
+				c.Out = append(c.Out, p[:k]...)
+				c.Writes = append(c.Writes, append([]byte(nil), p[:k]...))
+				c.OutAt = append(c.OutAt, vs.S.Now)
+				return k, TimeoutErr{}
+			}
+		}
 		vs.TimeSleep(d) // the caller stays blocked in Write while virtual time passes
 		if c.Closed {
 			return 0, ErrClosed
